@@ -188,6 +188,17 @@ class AObj(Abs):
         return "<%s%s>" % (self.cls.split(".")[-1], (" " + str(self.tag)) if self.tag else "")
 
 
+class NTClass(Abs):
+    """A class made by collections.namedtuple(name, fields)."""
+
+    def __init__(self, name, fields):
+        self.name = name
+        self.fields = list(fields)
+
+    def __repr__(self):
+        return "namedtuple:%s" % self.name
+
+
 class ClassRef(Abs):
     def __init__(self, qual):
         self.qual = qual
@@ -458,6 +469,27 @@ class Explorer(object):
         return results
 
 
+PURE_VALUE_CLASSES = {"pysmt.logics.Theory", "pysmt.logics.Logic"}
+_CMP_DUNDERS = {"__le__", "__lt__", "__ge__", "__gt__", "__eq__", "__ne__"}
+_PURE_OK = {}
+_PURE_CACHE = {}
+_NOSIG = object()
+
+
+def _pure_sig(v, depth=0):
+    if v is None or isinstance(v, (bool, int, str)) and not isinstance(v, Abs):
+        return v
+    if isinstance(v, AObj) and v.cls in PURE_VALUE_CLASSES and depth < 3:
+        items = []
+        for k in sorted(v.attrs):
+            x = _pure_sig(v.attrs[k], depth + 1)
+            if x is _NOSIG:
+                return _NOSIG
+            items.append((k, x))
+        return (v.cls, tuple(items))
+    return _NOSIG
+
+
 _DEEP = {"set": False}
 
 
@@ -467,11 +499,11 @@ def _run_deep(fn, arg):
     import threading
     import sys
     if not _DEEP["set"]:
-        threading.stack_size(512 * 1024 * 1024)
         sys.setrecursionlimit(40000)
         _DEEP["set"] = True
     if threading.current_thread().name.startswith("sa-deep"):
         return fn(arg)
+    threading.stack_size(256 * 1024 * 1024)
     box = {}
 
     def target():
@@ -481,6 +513,7 @@ def _run_deep(fn, arg):
             box["e"] = ex
     t = threading.Thread(target=target, name="sa-deep")
     t.start()
+    threading.stack_size(32 * 1024 * 1024)      # generator threads started from now on
     t.join()
     if "e" in box:
         raise box["e"]
@@ -493,7 +526,11 @@ BUILTIN_EXC = {"Exception": Exception, "ValueError": ValueError, "TypeError": Ty
                "NotImplementedError": NotImplementedError, "AssertionError": AssertionError,
                "StopIteration": StopIteration, "ZeroDivisionError": ZeroDivisionError,
                "BaseException": BaseException, "RuntimeError": RuntimeError,
-               "ArithmeticError": ArithmeticError, "LookupError": LookupError}
+               "ArithmeticError": ArithmeticError, "LookupError": LookupError, "SyntaxError": SyntaxError,
+               "OverflowError": OverflowError, "OSError": OSError, "IOError": IOError, "EOFError": EOFError,
+               "NameError": NameError, "UnicodeError": UnicodeError, "GeneratorExit": GeneratorExit,
+               "KeyboardInterrupt": KeyboardInterrupt, "SystemExit": SystemExit, "Warning": Warning,
+               "UserWarning": UserWarning, "DeprecationWarning": DeprecationWarning, "ImportError": ImportError}
 
 
 class Interp(object):
@@ -576,6 +613,15 @@ class Interp(object):
                 continue
             if isinstance(st, ast.If) and "__name__" in ast.unparse(st.test):
                 continue
+            if isinstance(st, (ast.Assign, ast.AnnAssign)):
+                tg = st.targets if isinstance(st, ast.Assign) else [st.target]
+                names = [x.id for t in tg for x in ast.walk(t) if isinstance(x, ast.Name)]
+                if names and all((module.name, nm) in self.modcache for nm in names) and \
+                        not any(nm in env.vars for nm in names):
+                    # already evaluated lazily: keep that object (identity matters for singletons)
+                    for nm in names:
+                        env.vars[nm] = self.modcache[(module.name, nm)]
+                    continue
             try:
                 self.exec_stmt(st, env, ctx)
             except (AbsRaise, Unsupported):
@@ -622,10 +668,20 @@ class Interp(object):
                 return self.ops.ce.name(m, name)
             except NotConst:
                 pass
+            # one value per defining module and name, whichever module imports it (singletons)
+            if isinstance(target, ast.Name):
+                dkey = (m.name, target.id)
+                if dkey in self.modcache:
+                    return self.modcache[dkey]
+                if m.name not in self.mod_inited and self._needs_init(m):
+                    self.init_module(m)
+                    if dkey in self.modcache:
+                        return self.modcache[dkey]
             # evaluate the right-hand side in module context
             env = Env()
             val = self.eval(st.value, env, _ModuleCtx(m))
             if isinstance(target, ast.Name):
+                self.modcache[(m.name, target.id)] = val
                 return val
             if isinstance(target, (ast.Tuple, ast.List)):
                 items = self.iterate(val)
@@ -637,6 +693,38 @@ class Interp(object):
                         return x
             self.unsupported("module-level unpacking of %s" % name)
         self.unsupported("binding kind %s for %s" % (k, name))
+
+    def _pure_call(self, f, args):
+        """Comparison methods of plain value classes (feature records) are functions of their operands'
+        fields; their results are summarised once per process.  The summary is used only if the method
+        body is syntactically free of stores and of calls other than comparisons."""
+        ok = _PURE_OK.get((self.repo.root, f.cls, f.name))
+        if ok is None:
+            ok = True
+            for n in ast.walk(f.node):
+                if isinstance(n, (ast.Assign, ast.AugAssign, ast.Delete, ast.Global, ast.Nonlocal, ast.Yield, ast.YieldFrom)):
+                    tg = getattr(n, "targets", None) or [getattr(n, "target", None)]
+                    if any(isinstance(t, (ast.Attribute, ast.Subscript)) for t in tg if t is not None) or \
+                            isinstance(n, (ast.Delete, ast.Global, ast.Nonlocal, ast.Yield, ast.YieldFrom)):
+                        ok = False
+                if isinstance(n, ast.Call):
+                    fn = n.func
+                    if not ((isinstance(fn, ast.Attribute) and fn.attr in _CMP_DUNDERS) or
+                            (isinstance(fn, ast.Name) and fn.id in ("isinstance", "hash", "str", "bool"))):
+                        ok = False
+            _PURE_OK[(self.repo.root, f.cls, f.name)] = ok
+        if not ok:
+            return self.call_func(f, args, {})
+        sig = tuple(_pure_sig(a) for a in [f.bound] + args)
+        if any(x is _NOSIG for x in sig):
+            return self.call_func(f, args, {})
+        key = (self.repo.root, f.cls, f.name, sig)
+        if key in _PURE_CACHE:
+            return _PURE_CACHE[key]
+        v = self.call_func(f, args, {})
+        if isinstance(v, bool) or v is None:
+            _PURE_CACHE[key] = v
+        return v
 
     def builtin(self, name):
         if name in _BUILTINS:
@@ -658,9 +746,19 @@ class Interp(object):
         if isinstance(f, Prim):
             return f.fn(self, list(args), kwargs)
         if isinstance(f, Func):
+            if f.cls in PURE_VALUE_CLASSES and f.name in _CMP_DUNDERS and f.bound is not None and not kwargs:
+                return self._pure_call(f, list(args))
             return self.call_func(f, list(args), kwargs)
         if isinstance(f, ClassRef):
             return self.instantiate(f, list(args), kwargs, node)
+        if isinstance(f, NTClass):
+            vals = dict(zip(f.fields, args))
+            vals.update(kwargs)
+            if set(vals) != set(f.fields) or len(args) > len(f.fields):
+                raise AbsRaise("TypeError", ("namedtuple %s expects fields %s" % (f.name, f.fields),))
+            obj = AObj("collections." + f.name, vals, tag="namedtuple")
+            obj.fields = list(f.fields)
+            return obj
         if isinstance(f, ExtRef):
             return self.call_ext(f, list(args), kwargs, node)
         if self.domain is not None:
@@ -675,6 +773,13 @@ class Interp(object):
                 return f(*args, **kwargs)
             except Exception as ex:
                 raise AbsRaise(type(ex).__name__, ex.args)
+        if isinstance(f, AObj) and f.cls in self.repo.classes:
+            q, cm = self.repo.find_method(f.cls, "__call__")
+            if cm is not None:
+                return self.call_func(Func(cm, self.repo.classes[q].module, q, bound=f), list(args), kwargs)
+            raise AbsRaise("TypeError", ("'%s' object is not callable" % f.cls.split(".")[-1],))
+        if f is None or isinstance(f, (str, int, list, tuple, dict)):
+            raise AbsRaise("TypeError", ("'%s' object is not callable" % type(f).__name__,))
         self.unsupported("call of %r" % (f,), node)
 
     def call_func(self, f, args, kwargs):
@@ -820,10 +925,12 @@ class Interp(object):
                 hit, v = self.domain.call(self, f, args, kwargs)
                 if hit:
                     return v
-        if f.name in ("re.compile", "re.match", "re.search", "re.fullmatch", "re.sub", "re.escape") and not _has_abs(args):
+        if f.name in ("re.compile", "re.match", "re.search", "re.fullmatch", "re.sub", "re.escape", "re.finditer",
+                      "re.findall", "re.split") and not _has_abs(args):
             import re as _re
             try:
-                return getattr(_re, n)(*args, **kwargs)
+                r = getattr(_re, n)(*args, **kwargs)
+                return list(r) if n == "finditer" else r
             except Exception as ex:
                 raise AbsRaise(type(ex).__name__, ex.args)
         if n == "defaultdict":
@@ -860,6 +967,9 @@ class Interp(object):
         if n == "product":
             return list(itertools.product(*[self.iterate(a) for a in args]))
         if n == "namedtuple":
+            if len(args) == 2 and isinstance(args[0], str):
+                fields = args[1].split() if isinstance(args[1], str) else list(self.iterate(args[1]))
+                return NTClass(args[0], fields)
             return ExtRef("namedtuple")
         if n == "wraps":
             return Prim(lambda it, a, k: a[0], "wraps-id")
@@ -890,7 +1000,14 @@ class Interp(object):
                 return ModRef(sub)
             return self.module_global(m, name)
         if isinstance(obj, ExtRef):
+            if obj.name == "re":
+                import re as _re
+                v = getattr(_re, name, None)
+                if isinstance(v, _re.RegexFlag):
+                    return v
             return ExtRef(obj.name + "." + name)
+        if isinstance(obj, NTClass):
+            self.unsupported("attribute %s of namedtuple class" % name, node)
         if isinstance(obj, Func):
             if name == "__name__":
                 return obj.name
@@ -962,7 +1079,7 @@ class Interp(object):
                     it.unsupported("regular expression on abstract text")
                 return getattr(o, n)(*a, **k)
             return Prim(call, "re.Pattern." + name)
-        if isinstance(obj, _re.Match) and name in ("group", "groups", "start", "end", "span"):
+        if isinstance(obj, _re.Match) and name in ("group", "groups", "start", "end", "span", "groupdict"):
             return Prim(lambda it, a, k, o=obj, n=name: getattr(o, n)(*a, **k), "re.Match." + name)
         self.unsupported("attribute %s of python value %r" % (name, obj), node)
 
